@@ -181,7 +181,7 @@ class NCCHReader(TypeReaderCryptoBase):
 
     __slots__ = (
         '_all_sections', '_assume_decrypted', '_case_insensitive', '_exefs_crypto_ranges', '_exefs_fp',
-        '_exefs_special_handling', '_key_y', '_lock', '_raw_fp', '_seed_set_up', '_seed_verify', '_seeded_key_y', 'closed',
+        '_exefs_raw_fp', '_exefs_special_handling', '_key_y', '_lock', '_raw_fp', '_seed_set_up', '_seed_verify', '_seeded_key_y', 'closed',
         'content_size', 'exefs', 'extra_keyslot', 'flags', 'main_keyslot', 'partition_id', 'product_code', 'program_id',
         'romfs', 'sections', 'version'
     )
@@ -441,6 +441,9 @@ class NCCHReader(TypeReaderCryptoBase):
             # This will set up either the special ExeFS encryption from above, or a straightforward decryption
             # passthrough if not.
             self._exefs_fp = self.open_raw_section(NCCHSection.ExeFS)
+            # get_data reads the decrypted ExeFS through a window of its own, for the same reason as _raw_fp: the files
+            #   opened from self.exefs are windows on _exefs_fp too and hold the lock those windows share
+            self._exefs_raw_fp = SubsectionIO(self._exefs_fp, 0, self.sections[NCCHSection.ExeFS].size)
             self.exefs = ExeFSReader(self._exefs_fp, closefd=False)
 
         # try to load RomFS
@@ -646,8 +649,8 @@ class NCCHReader(TypeReaderCryptoBase):
             # if the region is ExeFS and extra crypto is being used, special handling is required
             #   because different parts use different encryption methods
             if region.section == NCCHSection.ExeFS:
-                self._exefs_fp.seek(offset)
-                return self._exefs_fp.read(size)
+                self._exefs_raw_fp.seek(offset)
+                return self._exefs_raw_fp.read(size)
             else:
                 # this is currently used to support FullDecrypted. other sections use SubsectionIO + CTRFileIO.
 
